@@ -297,6 +297,24 @@ def _check_accumulator(ctx, rule, fv, f, rn) -> None:
             kn, fn_ = g.target.elts[0].id, g.target.elts[1].id
             ok_init = is_name(dc.key, kn) and to_poly(dc.value) == Poly.symbol(ast.Name(id=fn_, ctx=ast.Load())) * Poly.symbol(ast.Name(id="volume_A", ctx=ast.Load()))
             acc = n.ast.targets[0].id if isinstance(n.ast.targets[0], ast.Name) else None
+    if not inits:
+        # loop form:  acc = {};  for k, f in composition_A.items(): acc[k] = f * volume_A
+        for lp in (n for n in fv.cfg.nodes if n.kind == "for"):
+            it = lp.ast.iter
+            if not (isinstance(it, ast.Call) and call_fname(it) == "items" and is_name(it.func.value, "composition_A") and isinstance(lp.ast.target, ast.Tuple) and len(lp.ast.target.elts) == 2
+                    and all(isinstance(e, ast.Name) for e in lp.ast.target.elts)) or fv.cfg.enclosing_loops(lp.id) or fv.cfg.loop_has_break.get(lp.id):
+                continue
+            kn, fn_ = lp.ast.target.elts[0].id, lp.ast.target.elts[1].id
+            body = fv.cfg.loop_body[lp.id]
+            stores = [m for m in (fv.cfg.nodes[i] for i in body) if m.kind == "stmt" and isinstance(m.ast, (ast.Assign, ast.AugAssign)) and isinstance(m.ast.targets[0] if isinstance(m.ast, ast.Assign) else m.ast.target, ast.Subscript)]
+            if len(stores) == 1 and isinstance(stores[0].ast, ast.Assign) and isinstance(stores[0].ast.targets[0].value, ast.Name) and not fv.controlling(stores[0].id, within=body):
+                st_ = stores[0].ast
+                name_ = st_.targets[0].value.id
+                empties = [m for m in fv.cfg.nodes if m.kind == "stmt" and isinstance(m.ast, (ast.Assign, ast.AnnAssign)) and is_name(m.ast.targets[0] if isinstance(m.ast, ast.Assign) else m.ast.target, name_)
+                           and isinstance(m.ast.value, ast.Dict) and not m.ast.value.keys and fv.cfg.dominates(m.id, lp.id)]
+                if len(empties) == 1 and is_name(st_.targets[0].slice, kn):
+                    ok_init = to_poly(st_.value) == Poly.symbol(ast.Name(id=fn_, ctx=ast.Load())) * Poly.symbol(ast.Name(id="volume_A", ctx=ast.Load()))
+                    acc = name_
     ctx.rep.check(ok_init, rule, f"{f.qualname}/weights-A", "every component of A enters with fraction * volume_A",
                   "the accumulator is not initialised with fraction * volume_A for every component of liquid A", where=f.where())
     ok_b = False
@@ -466,6 +484,11 @@ def trough_names(ctx) -> None:
     f = ctx.prog.require_func("get_trough_component_names", rule)
     fv = ctx.fv(f)
     loops = [n for n in fv.cfg.nodes if n.kind == "for"]
+    ret_names0 = {getattr(fv.alias_root(n.ast.value, n.id), "id", None) for n in fv.return_nodes()}
+    if len(loops) != 1:
+        # the loop that fills the returned dict
+        loops = [lp_ for lp_ in loops if any(m.kind == "stmt" and isinstance(m.ast, ast.Assign) and isinstance(m.ast.targets[0], ast.Subscript) and isinstance(m.ast.targets[0].value, ast.Name)
+                                             and m.ast.targets[0].value.id in ret_names0 for m in (fv.cfg.nodes[i] for i in fv.cfg.loop_body[lp_.id]))]
     if len(loops) != 1:
         ctx.rep.inconclusive(rule, f.qualname, "expected one loop over the columns")
         return
